@@ -19,7 +19,7 @@ from ..scoping import NamespaceIds
 from ..text_gen import BLANK_LINE, GeneratedContent, TextBlock
 
 # own modules
-from .types import RuntimeSemantics
+from .types import MultiClientCfgError, RuntimeSemantics
 from .port_selection import PortsCfg
 
 
@@ -55,8 +55,8 @@ class DznPortItf:
     def __post_init__(self):
         """Postcheck the constructed data class members on validity."""
         if self.multiclient and self.semantics != RuntimeSemantics.MTS:
-            raise ValueError(f'Port "{self.port.name}": Multiclient port configuration is '
-                             'only allowed for MTS ports')
+            raise MultiClientCfgError(f'Port "{self.port.name}": Multiclient port configuration '
+                                      'is only allowed for MTS ports')
 
 
 @dataclass(frozen=True)
